@@ -99,11 +99,15 @@ def check(ctx):
                 ctx.case((seed, beh['origin'], bi, n), action='Npc.' + st['l']['op'])
         if bi == 0:
             ctx.sample(dict(mods=beh['mods'], ops=[s['l'] for s in bj['steps']][:6]))
-        # each configuration against the spec
-        for name, res in (('pure', a), ('compiled', b)):
-            for f in res['findings']:
-                ctx.violation(dict(kind='replay', spec='NpcProgram', config=name, prop=f['prop'], op=f['op'], clause=f['clause']),
-                              dict(finding=f, behaviour=bj, config=name))
+        # each configuration against the spec: a divergence that both configurations show in the same way is the
+        # business of C01-C03 (and may be a known finding there); C04 reports it only when the configurations differ
+        fa = sorted((f['prop'], f['clause'], f['step'], f['op']) for f in a['findings'])
+        fb = sorted((f['prop'], f['clause'], f['step'], f['op']) for f in b['findings'])
+        if fa != fb:
+            only = [('pure',) + x for x in fa if x not in fb] + [('compiled',) + x for x in fb if x not in fa]
+            ctx.violation(dict(kind='config-diff', spec='NpcProgram', op=only[0][4], clause='spec-divergence-in-one-config:' + only[0][2],
+                               config=only[0][0]),
+                          dict(pure=a['findings'], compiled=b['findings'], behaviour=bj))
         # the two configurations against each other
         for xa, xb in zip(a['records'], b['records']):
             clause = canon_equal(xa, xb)
